@@ -132,23 +132,27 @@ def o09_7(tier):
         if ctx.mode != "sym":
             ctx.set(c, "vertices", [])
 
-    def h_replace(new_in_cycle):
+    def h_replace(new_in_cycle, n=4, at=1):
         def h(ctx):
             C = cls(ctx, "forsys.cell", "Cell")
             stub_center(ctx)
-            vs = mk_vertices(ctx, [(0.0, 0.0), (1.0, 0.0), (1.0, 1.0), (0.0, 1.0), (9.0, 9.0)], ids=[4, 9, 6, 2, 8])
-            c = ctx.call(C, 55, vs[:4])
-            old = vs[1]
-            new = vs[2] if new_in_cycle else vs[4]
+            ids = [4, 9, 6, 2, 7][:n] + [8]
+            vs = mk_vertices(ctx, [(0.0, 0.0), (1.0, 0.0), (1.0, 1.0), (0.0, 1.0), (-1.0, 0.5)][:n] + [(9.0, 9.0)], ids=ids)
+            c = ctx.call(C, 55, vs[:n])
+            old = vs[at]
+            new = vs[(at + 1) % n] if new_in_cycle else vs[n]
             ctx.callm(c, "replace_vertex", old, new)
             cyc = [ctx.get(v, "id") for v in ctx.list_of(ctx.get(c, "vertices"))]
-            ctx.ensure(cyc == ([4, 6, 2] if new_in_cycle else [4, 8, 6, 2]), "cycle: new vertex at the old one's place / old one dropped")
+            want = [i for i in ids[:n] if i != ids[at]] if new_in_cycle else [8 if i == ids[at] else i for i in ids[:n]]
+            ctx.ensure(cyc == want, "cycle: new vertex at the old one's place / old one dropped (whatever the size of the cell)")
             ctx.ensure(ctx.list_of(ctx.get(new, "ownCells")).count(55) == 1, "the new vertex lists the cell exactly once")
             ctx.ensure(len(set(cyc)) == len(cyc), "no vertex repeated")
             if ctx.mode != "sym":
                 ctx.callm(old, "remove_cell", 55)        # the caller's duty (join_two_vertices deletes the old vertex)
         return h
-    return [("constructor-destructor", h_ctor), ("replace,new-outside", h_replace(False)), ("replace,new-already-in-cycle", h_replace(True))]
+    out = [("constructor-destructor", h_ctor), ("replace,new-outside", h_replace(False)), ("replace,new-already-in-cycle", h_replace(True))]
+    out += [(f"replace,n={n},at={at},{'new-already-in-cycle' if inc else 'new-outside'}", h_replace(inc, n, at)) for n in (3, 5) for at in (0, n - 1) for inc in (False, True)]
+    return out
 
 
 @obligation("O11.6", ["C11", "C09", "C07"], ["forsys.virtual_edges:get_unused_id"],
